@@ -30,7 +30,7 @@ structure Obj where
   registered : Bool := false   -- the IO registry holds the slot
   tstate : TState := .ready    -- timers
   cancelled : Bool := false
-  cancelledRep : Bool := false  -- a successful Cancel happened since the running repeating callback started (`cancels` counter)
+  cancels : Nat := 0           -- number of successful Cancel calls so far (`Timer.cancels`)
   rep : Bool := false
   deriving Repr, DecidableEq, Inhabited
 
@@ -39,7 +39,8 @@ inductive After where
   | none
   | decDisp                    -- `ioc.Dispatched--` (inline completion wrapper)
   | postDone                   -- `pending--` after a posted handler
-  | timerDone (obj : Nat) (rep : Bool)   -- a repeating schedule re-arms unless cancelled meanwhile
+  | timerDone (obj : Nat) (rep : Bool) (cancelsBefore : Nat)   -- a repeating schedule re-arms unless a Cancel succeeded while its
+                               -- callback ran (`cancelsBefore`: the counter when the wrapper started)
   deriving Repr, DecidableEq, Inhabited
 
 inductive Phase where
@@ -131,12 +132,12 @@ def applyAfter (w : World) (op : Nat) : After → World
   | .none => w
   | .decDisp => { w with dispatched := w.dispatched - 1 }
   | .postDone => { w with pending := w.pending - 1 }
-  | .timerDone k rep =>
+  | .timerDone k rep cb =>
     match getObj w k with
     | none => w
     | some o =>
       if !rep || o.kind != .timer then w
-      else if o.cancelled || o.cancelledRep then setObj w { o with cancelled := false, cancelledRep := false }
+      else if o.cancelled || o.cancels != cb then setObj w { o with cancelled := false }
       else if o.tstate == .ready then armTimer w o op true       -- ScheduleOnce(repeat, ccb)
       else w                                                      -- ErrCancelled, ignored by ccb
 
@@ -156,9 +157,9 @@ def pollDispatch (w : World) (op : Nat) (rest : List K) : Option World :=
         if info.kind.isTimer then
           if o.kind == .timer && o.evR && o.hR == op then
             -- timer handler: DelRead by the poller, then `delete pendingTimers; state = ready; cb()`; the wrapper of a
-          -- repeating schedule notes the number of Cancels so far (`cancelsBefore`) when it starts, a one-shot callback does not
-            let w := setObj { w with pending := w.pending - 1 } { o with evR := false, tstate := .ready, cancelledRep := (o.cancelledRep && info.kind != OpKind.timerRep) }
-            some { w with stack := .user op (.timerDone o.id (info.kind == .timerRep)) :: .pollCall true :: rest }
+          -- repeating schedule notes the number of Cancels so far (`cancelsBefore := t.cancels`) when it starts
+            let w := setObj { w with pending := w.pending - 1 } { o with evR := false, tstate := .ready }
+            some { w with stack := .user op (.timerDone o.id (info.kind == .timerRep) o.cancels) :: .pollCall true :: rest }
           else none
         else if o.kind == .timer then none
         else if info.kind.isRead then
@@ -267,7 +268,7 @@ def step (w : World) (e : Ev) : Option World :=
       if !isNil || o.kind != .timer then none
       else if o.tstate == .closed then some { w with stack := rest }
       else
-        some { (setObj (unsetPending w o) { o with evR := false, cancelled := true, cancelledRep := true, tstate := .ready }) with stack := rest }
+        some { (setObj (unsetPending w o) { o with evR := false, cancelled := true, cancels := o.cancels + 1, tstate := .ready }) with stack := rest }
   | .scheduledCall k :: rest, .ret (.bool b) =>
     match getObj w k with
     | none => none
